@@ -66,9 +66,9 @@ func (o c13Op) String() string {
 func c13Def(v int, local byte) fitmodel.Def {
 	switch v {
 	case 0:
-		return fitmodel.Def{Local: local, Global: 20, Fields: []fitmodel.FieldDef{{Num: 3, Size: 1, Base: fitmodel.Uint8}, {Num: 7, Size: 2, Base: fitmodel.Uint16}}}
+		return fitmodel.Def{Local: local, Global: 20, Fields: []fitmodel.FieldDef{{Num: 3, Size: 1, Base: fitmodel.Uint8}, {Num: 7, Size: 2, Base: fitmodel.Uint16}, {Num: 0, Size: 4, Base: fitmodel.Sint32}, {Num: 9, Size: 2, Base: fitmodel.Sint16}}}
 	case 1:
-		return fitmodel.Def{Local: local, Big: true, Global: 20, Fields: []fitmodel.FieldDef{{Num: 7, Size: 2, Base: fitmodel.Uint16}, {Num: 5, Size: 4, Base: fitmodel.Uint32}, {Num: 4, Size: 1, Base: fitmodel.Uint8}, {Num: 3, Size: 1, Base: fitmodel.Uint8}}}
+		return fitmodel.Def{Local: local, Big: true, Global: 20, Fields: []fitmodel.FieldDef{{Num: 7, Size: 2, Base: fitmodel.Uint16}, {Num: 5, Size: 4, Base: fitmodel.Uint32}, {Num: 1, Size: 4, Base: fitmodel.Sint32}, {Num: 4, Size: 1, Base: fitmodel.Uint8}, {Num: 0, Size: 4, Base: fitmodel.Sint32}, {Num: 3, Size: 1, Base: fitmodel.Uint8}}}
 	case 2:
 		return fitmodel.Def{Local: local, Global: 23, Fields: []fitmodel.FieldDef{{Num: 3, Size: 4, Base: fitmodel.Uint32z}, {Num: 2, Size: 2, Base: fitmodel.Uint16}}}
 	case 4: // file_id definition (prefix only)
@@ -84,7 +84,7 @@ func c13Payload(d fitmodel.Def, pos int) []byte {
 	n := d.DataLen()
 	p := make([]byte, n)
 	for i := range p {
-		p[i] = byte(1 + (pos*7+i*3)%250)
+		p[i] = byte(1 + (pos*7+i*3)%60) // small bytes: any 4 of them form a valid latitude in either byte order
 	}
 	if d.Global == 0 && n >= 1 {
 		p[0] = 4 // a further file_id keeps type activity
